@@ -46,6 +46,18 @@ CHECKS["C15"] = ("model_checking",
                  "Json module, the Go race detector (stress-sampled schedules, not exhaustive). tun_metadataN widths not asserted.",
                  "4/C15")
 
+CHECKS["C17"] = ("model_checking",
+                 "TLC enumeration over MatchBuilder.tla (all register windows x value classes x calling conventions; all fixed-width "
+                 "fields x boundary windows; all Go argument types) replayed on NewMatchField / NewRegMatchField; TLC trace judge",
+                 "MatchBuilder.tla states when a (value, window) call is representable in a field of W bytes and what the resulting "
+                 "value and mask bytes are; TLC checks the property's clauses (value inside mask, mask = window, sizes = width) on the "
+                 "model for every generated call, enumerates every window of a 32-bit register (and one bit beyond) x 7 value classes x "
+                 "4 calling conventions, every registered fixed-width field x 9 boundary windows, and every Go argument type x sign x "
+                 "negative/huge window arguments; each call is executed on the real builder and its error / panic / bytes / sizes / "
+                 "argument snapshot are judged by TLC, as is byte equality with NewRegMatchField for registers.",
+                 "Trusted: TLC, Json module, Registry.tla's widths, the harness' instantiation of the generic function per argument "
+                 "type. Values are classes per window (not all 2^n values); 48/64/128-bit fields use boundary windows only.", "4/C17")
+
 NOT_YET = {
 }
 
